@@ -1,113 +1,142 @@
 import KyupyVerif.Model.Sig
+import KyupyVerif.Model.Callback
 import KyupyVerif.Proofs.Consistent
 import KyupyVerif.Proofs.AllCircCb
 import KyupyVerif.Proofs.AllCircStrip
 import KyupyVerif.Proofs.AllCircDemo
 /-! # C16 — the fault-injection callback sees and controls every evaluated signal
 
-Model (M): propagation with a callback = `execCb`: after every op the freshly computed value of its output
-signal is passed through `cb out value` and the result is what is stored (the real callback mutates a writable
-view of the signal's memory in place). The call log is one entry per op, in op order. Tied to the code by
-correspondence of the real call log and results in all three logics (harness/c16.py); the per-op semantics of
-the callback chains themselves is regenerated from the code (C01: `sem2c`, C02: m=8 chain with callback).
+Model (M, `Model/Callback.lean`): propagation with a callback = `execCb nl`: after every op row the freshly computed value of its
+output signal is stored, and — exactly as `LogicSim.c_prop` does (`if o0_idx < len(self.circuit.lines)`) — ONLY when the output
+index is a line (`op.out < nl`, `nl = len(circuit.lines)`) it is passed through `cb out value` and the result is what is stored
+(the real callback mutates a writable view of the signal's memory in place). Rows of nodes with an unconnected output write the
+scratch slot and are not reported. The call log `cbLog nl` has one entry per LINE row, in row order.
+**Tie (audit finding 9):** driver command `cblog` (Drv/Callback.lean) runs `cbLogA`/`execCbA` (= `cbLog`/`execCb` by
+`cbLogA_eq`/`execCbA_eq`) on the rows of the `SimOps` model of the real circuit; harness/c16.py compares the line sequence AND the
+values handed over with the real recorded calls (recording callback and overwriting callback, m = 2, 4, 8, strip on/off) and the
+final port values of the overwritten run. The per-op semantics of the callback chains themselves is regenerated from the code
+(C01: `sem2c`, C02: m=8 chain with callback).
 
-**Theorem, per program:** `cb_once_in_order`, `cb_identity`, `cb_identity_sees_plain_values`, `cb_log_entry`, `cb_override`,
-`cb_force_is_source`, `cb_upstream_unaffected`, `cb_value_sticks` (every op program, any value domain).
+**Theorem, per program:** `cb_once_in_order` (the logged identities are the outputs of the LINE rows, in order), `cb_identity`,
+`cb_identity_sees_plain_values`, `cb_log_entry`, `cb_override`, `cb_force_is_source`, `cb_upstream_unaffected`, `cb_value_sticks`,
+`cb_frame` (a callback that rewrites only `x` leaves every signal outside `fanout x ops` — also those scheduled LATER — as in the
+plain run) — every op program, any value domain. `cb_force_is_source` and the `…force…` theorems carry the hypothesis `x < nl`
+(the forced signal is a line: for any other index the real code never invokes the callback); the harness forces lines only and
+evaluates it (tag `force-hyp:line`).
 **Theorem, per NETLIST** (part "ALL circuits"): for every well-formed netlist (`Net.wfB`), every topological order
-(`orderOKB`) and the op program of the `SimOps` model: `callback_all_circuits` — one call per scheduled line, in schedule
-order, no line twice, the value handed over is the gate function of the FINAL operand values, the result is THE solution of
+(`orderOKB`), `nl = net.lines.size` and the op program of the `SimOps` model: `callback_all_circuits` — one call per scheduled LINE,
+in schedule order, no line twice, the value handed over is the gate function of the FINAL operand values, the result is THE solution of
 the gate equations followed by the callback; `callback_force_all_circuits`, `callback_force_spec_all_circuits`,
 `callback_force_three_logics` — forcing a line = solving the system in which the equation of that line is replaced by the
 constant (2-valued callback path, 4-, 8-valued dispatch against the documented algebra); `callback_upstream_all_circuits` —
 everything scheduled before the overridden line is as in the run without callback, the callback sees the plain value there;
+`callback_force_frame` — every line outside the fan-out of the overridden line (scheduled earlier OR later) keeps the plain value;
 `…_stripped` — the same for the `strip_forks` schedule (fork rows dropped, operands read through the stems; well-orderedness
 from `C08.simops_program_facts`; hypotheses `forksOKB`, `readsDrivenB`). All are instances of `callback_wellordered`,
-`callback_force_wellordered`, `callback_force_spec_wellordered`, `callback_upstream_wellordered` (every well-ordered program).
-**Correspondence (not theorem):** that `LogicSim.c_prop(inject_cb=…)` invokes the callback once after every row with the row's
-output line (call sites, harness/c16.py) and that `SimOps` produces the rows of the model (C01). -/
+`callback_force_wellordered`, `callback_force_spec_wellordered`, `callback_upstream_wellordered`, `cb_frame`.
+**Correspondence (not theorem):** that `LogicSim.c_prop(inject_cb=…)` produces the call log and results of `cbLog`/`execCb`
+(driver `cblog`, harness/c16.py) and that `SimOps` produces the rows of the model (C01). -/
 namespace KV.C16
 open KV KV.Sig
 
-def execCbOp {α} (sem : Op → List α → α) (cb : Nat → α → α) (env : Nat → α) (op : Op) : Nat → α :=
-  upd env op.out (cb op.out (sem op (op.ins.map env)))
-
-def execCb {α} (sem : Op → List α → α) (cb : Nat → α → α) (ops : List Op) (env : Nat → α) : Nat → α :=
-  ops.foldl (execCbOp sem cb) env
-
-/-- the sequence of callback invocations: (signal, freshly computed value) -/
-def cbLog {α} (sem : Op → List α → α) (cb : Nat → α → α) : List Op → (Nat → α) → List (Nat × α)
-  | [], _ => []
-  | op :: ops, env => (op.out, sem op (op.ins.map env)) :: cbLog sem cb ops (execCbOp sem cb env op)
-
-/-- exactly once for every evaluated signal, in evaluation order, with that signal's identity -/
-theorem cb_once_in_order {α} (sem : Op → List α → α) (cb : Nat → α → α) (ops : List Op) (env : Nat → α) :
-    (cbLog sem cb ops env).map (·.1) = ops.map (·.out) := by
+/-- exactly once for every evaluated LINE (rows writing the scratch slot are not reported), in evaluation order, with that
+    line's identity -/
+theorem cb_once_in_order {α} (nl : Nat) (sem : Op → List α → α) (cb : Nat → α → α) (ops : List Op) (env : Nat → α) :
+    (cbLog nl sem cb ops env).map (·.1) = (ops.map (·.out)).filter (· < nl) := by
   induction ops generalizing env with
   | nil => rfl
-  | cons op ops ih => simp [cbLog, ih]
+  | cons op ops ih => by_cases h : op.out < nl <;> simp [cbLog, h, ih]
+
+/-- overwriting is equivalent to simulating the program in which the semantics of the ops writing a line is
+    post-composed with the overwrite: every later reader of that signal sees the overwritten value -/
+theorem cb_override {α} (nl : Nat) (sem : Op → List α → α) (cb : Nat → α → α) (ops : List Op) (env : Nat → α) :
+    execCb nl sem cb ops env = execG (cbSem nl sem cb) ops env := rfl
+
+theorem cbSem_id {α} (nl : Nat) (sem : Op → List α → α) : cbSem nl sem (fun _ v => v) = sem := by
+  funext op xs; simp [cbSem]
 
 /-- leaving the values untouched changes nothing -/
-theorem cb_identity {α} (sem : Op → List α → α) (ops : List Op) (env : Nat → α) :
-    execCb sem (fun _ v => v) ops env = execG sem ops env := rfl
+theorem cb_identity {α} (nl : Nat) (sem : Op → List α → α) (ops : List Op) (env : Nat → α) :
+    execCb nl sem (fun _ v => v) ops env = execG sem ops env := by
+  rw [cb_override, cbSem_id]
 
-/-- … and with the identity callback each invocation sees the value the plain simulation computes -/
-theorem cb_identity_sees_plain_values {α} (sem : Op → List α → α) (ops : List Op) (env : Nat → α) :
-    ∀ pre op post, ops = pre ++ op :: post →
-      (cbLog sem (fun _ v => v) ops env)[pre.length]? = some (op.out, sem op (op.ins.map (execG sem pre env))) := by
+/-- every program, every callback: the invocation for a line row `op` (there are as many earlier invocations as line rows before
+    it) receives the identity of the row's output and the value the row computes from the state left by the rows before it
+    (overrides of earlier invocations included) -/
+theorem cb_log_entry {α} (nl : Nat) (sem : Op → List α → α) (cb : Nat → α → α) (ops : List Op) (env : Nat → α) :
+    ∀ pre op post, ops = pre ++ op :: post → op.out < nl →
+      (cbLog nl sem cb ops env)[(pre.filter (·.out < nl)).length]? =
+        some (op.out, sem op (op.ins.map (execCb nl sem cb pre env))) := by
   intro pre
   induction pre generalizing ops env with
-  | nil => intro op post h; subst h; simp [cbLog, execG]
+  | nil => intro op post h hl; subst h; simp [cbLog, execCb, hl]
   | cons p pre ih =>
-    intro op post h; subst h
-    simp only [List.cons_append, cbLog, List.length_cons, List.getElem?_cons_succ]
-    have := ih (ops := pre ++ op :: post) (env := execCbOp sem (fun _ v => v) env p) op post rfl
-    rw [this]
-    rfl
+    intro op post h hl; subst h
+    have := ih (ops := pre ++ op :: post) (env := execCbOp nl sem cb env p) op post rfl hl
+    by_cases hp : p.out < nl
+    · simp only [List.cons_append, cbLog, hp, if_true, List.filter_cons, decide_true, List.length_cons,
+        List.getElem?_cons_succ]
+      rw [this]; rfl
+    · simp only [List.cons_append, cbLog, hp, if_false, List.filter_cons, decide_false, Bool.false_eq_true]
+      rw [this]; rfl
 
-/-- overwriting is equivalent to simulating the program in which the semantics of the ops writing a signal is
-    post-composed with the overwrite: every later reader of that signal sees the overwritten value -/
-theorem cb_override {α} (sem : Op → List α → α) (cb : Nat → α → α) (ops : List Op) (env : Nat → α) :
-    execCb sem cb ops env = execG (fun op xs => cb op.out (sem op xs)) ops env := rfl
+/-- … and with the identity callback each invocation sees the value the plain simulation computes -/
+theorem cb_identity_sees_plain_values {α} (nl : Nat) (sem : Op → List α → α) (ops : List Op) (env : Nat → α) :
+    ∀ pre op post, ops = pre ++ op :: post → op.out < nl →
+      (cbLog nl sem (fun _ v => v) ops env)[(pre.filter (·.out < nl)).length]? =
+        some (op.out, sem op (op.ins.map (execG sem pre env))) := by
+  intro pre op post h hl
+  rw [cb_log_entry nl sem _ ops env pre op post h hl, cb_identity]
 
-/-- forcing signal `x` to the value `c` is the same as simulating a circuit in which the op driving `x`
+theorem cbSem_force {α} (nl : Nat) (sem : Op → List α → α) (x : Nat) (hx : x < nl) (c : α) :
+    cbSem nl sem (fun s v => if s = x then c else v) = fun op xs => if op.out = x then c else sem op xs := by
+  funext op xs
+  by_cases h2 : op.out = x
+  · have h1 : op.out < nl := h2 ▸ hx
+    simp [cbSem, h2, hx]
+  · by_cases h1 : op.out < nl <;> simp [cbSem, h1, h2]
+
+/-- forcing LINE `x` to the value `c` is the same as simulating a circuit in which the op driving `x`
     is replaced by a source of `c` (here: an op whose semantics ignores its operands) -/
-theorem cb_force_is_source {α} (sem : Op → List α → α) (x : Nat) (c : α) (ops : List Op) (env : Nat → α) :
-    execCb sem (fun s v => if s = x then c else v) ops env =
+theorem cb_force_is_source {α} (nl : Nat) (sem : Op → List α → α) (x : Nat) (hx : x < nl) (c : α) (ops : List Op)
+    (env : Nat → α) :
+    execCb nl sem (fun s v => if s = x then c else v) ops env =
       execG (fun op xs => if op.out = x then c else sem op xs) ops env := by
-  rw [cb_override]
+  rw [cb_override, cbSem_force nl sem x hx]
 
 /-- nothing upstream changes: the ops evaluated before the first op that writes the injected signal compute
     exactly what they compute without a callback -/
-theorem cb_upstream_unaffected {α} (sem : Op → List α → α) (x : Nat) (f : α → α) (pre post : List Op) (env : Nat → α)
+theorem cb_upstream_unaffected {α} (nl : Nat) (sem : Op → List α → α) (x : Nat) (f : α → α) (pre : List Op) (env : Nat → α)
     (hpre : ∀ p ∈ pre, p.out ≠ x) :
-    execCb sem (fun s v => if s = x then f v else v) pre env = execG sem pre env := by
+    execCb nl sem (fun s v => if s = x then f v else v) pre env = execG sem pre env := by
   induction pre generalizing env with
   | nil => rfl
   | cons p pre ih =>
     simp only [execCb, execG, List.foldl_cons]
     have hp : p.out ≠ x := hpre p List.mem_cons_self
-    have : execCbOp sem (fun s v => if s = x then f v else v) env p = execOpG sem env p := by
-      funext j; simp [execCbOp, execOpG, hp]
+    have : execCbOp nl sem (fun s v => if s = x then f v else v) env p = execOpG sem env p := by
+      funext j; simp [execCbOp, execOpG, cbSem, hp]
     rw [this]
     exact ih _ (fun q hq => hpre q (List.mem_cons_of_mem _ hq))
 
 /-- every downstream result reflects the overwrite: the injected signal itself carries the overwritten value at
     the end (when no later op rewrites it) -/
-theorem cb_value_sticks {α} (sem : Op → List α → α) (cb : Nat → α → α) (pre post : List Op) (o : Op) (env : Nat → α)
+theorem cb_value_sticks {α} (nl : Nat) (sem : Op → List α → α) (cb : Nat → α → α) (pre post : List Op) (o : Op) (env : Nat → α)
     (hout : ∀ p ∈ post, p.out ≠ o.out) :
-    execCb sem cb (pre ++ o :: post) env o.out =
-      cb o.out (sem o (o.ins.map (execCb sem cb pre env))) := by
-  have h1 : execCb sem cb (pre ++ o :: post) env = execCb sem cb post (execCbOp sem cb (execCb sem cb pre env) o) := by
+    execCb nl sem cb (pre ++ o :: post) env o.out =
+      cbSem nl sem cb o (o.ins.map (execCb nl sem cb pre env)) := by
+  have h1 : execCb nl sem cb (pre ++ o :: post) env =
+      execCb nl sem cb post (execCbOp nl sem cb (execCb nl sem cb pre env) o) := by
     simp [execCb, List.foldl_append]
   rw [h1]
-  have frame : ∀ (l : List Op) (e : Nat → α), (∀ p ∈ l, p.out ≠ o.out) → execCb sem cb l e o.out = e o.out := by
+  have frame : ∀ (l : List Op) (e : Nat → α), (∀ p ∈ l, p.out ≠ o.out) → execCb nl sem cb l e o.out = e o.out := by
     intro l
     induction l with
     | nil => intro e _; rfl
     | cons p l ih =>
       intro e h
       simp only [execCb, List.foldl_cons]
-      have := ih (execCbOp sem cb e p) (fun q hq => h q (List.mem_cons_of_mem _ hq))
+      have := ih (execCbOp nl sem cb e p) (fun q hq => h q (List.mem_cons_of_mem _ hq))
       simp only [execCb] at this
       rw [this]
       have hp := h p List.mem_cons_self
@@ -115,97 +144,145 @@ theorem cb_value_sticks {α} (sem : Op → List α → α) (cb : Nat → α → 
   rw [frame post _ hout]
   simp [execCbOp, upd]
 
-/-- every program, every callback: the `k`-th invocation receives the identity of the `k`-th row's output and the value the
-    row computes from the state left by the rows before it (overrides of earlier invocations included) -/
-theorem cb_log_entry {α} (sem : Op → List α → α) (cb : Nat → α → α) (ops : List Op) (env : Nat → α) :
-    ∀ pre op post, ops = pre ++ op :: post →
-      (cbLog sem cb ops env)[pre.length]? = some (op.out, sem op (op.ins.map (execCb sem cb pre env))) := by
-  intro pre
-  induction pre generalizing ops env with
-  | nil => intro op post h; subst h; simp [cbLog, execCb]
-  | cons p pre ih =>
-    intro op post h; subst h
-    simp only [List.cons_append, cbLog, List.length_cons, List.getElem?_cons_succ]
-    have := ih (ops := pre ++ op :: post) (env := execCbOp sem cb env p) op post rfl
-    rw [this]
-    rfl
+/-! ### frame outside the fan-out -/
+
+theorem fanoutStep_mem {t : List Nat} {op : Op} {x : Nat} (h : x ∈ t) : x ∈ fanoutStep t op := by
+  unfold fanoutStep; split
+  · exact List.mem_cons_of_mem _ h
+  · exact h
+
+theorem frame_aux {α} (sem sem' : Op → List α → α) (x : Nat) (hs : ∀ op xs, op.out ≠ x → sem' op xs = sem op xs)
+    (ops : List Op) (t : List Nat) (hx : x ∈ t) (e1 e2 : Nat → α) (h : ∀ y, y ∉ t → e1 y = e2 y) :
+    ∀ y, y ∉ ops.foldl fanoutStep t → execG sem' ops e1 y = execG sem ops e2 y := by
+  induction ops generalizing t e1 e2 with
+  | nil => exact h
+  | cons op ops ih =>
+    simp only [List.foldl_cons, execG]
+    apply ih (fanoutStep t op) (fanoutStep_mem hx)
+    intro y hy
+    unfold fanoutStep at hy
+    split at hy
+    · rw [List.mem_cons, not_or] at hy
+      simp only [execOpG, upd, hy.1, if_false]
+      exact h y hy.2
+    · rename_i hany
+      have hins : ∀ i ∈ op.ins, i ∉ t := by
+        intro i hi hit
+        apply hany
+        rw [List.any_eq_true]
+        exact ⟨i, hi, by simpa using hit⟩
+      simp only [execOpG, upd]
+      split
+      · rename_i hyo
+        have hox : op.out ≠ x := by
+          intro hox; apply hy; rw [hyo, hox]; exact hx
+        rw [hs op _ hox]
+        congr 1
+        apply List.map_congr_left
+        intro i hi
+        exact h i (hins i hi)
+      · exact h y hy
+
+/-- **frame**: a callback that rewrites only signal `x` leaves every signal outside the fan-out of `x` (`fanout x ops`: `x`
+    and, in row order, the outputs of rows reading an influenced signal) exactly as in the run without callback — in
+    particular signals computed by rows AFTER the row of `x` that do not depend on it. Every program. -/
+theorem cb_frame {α} (nl : Nat) (sem : Op → List α → α) (x : Nat) (cb : Nat → α → α) (hcb : ∀ s v, s ≠ x → cb s v = v)
+    (ops : List Op) (env : Nat → α) :
+    ∀ y, y ∉ fanout x ops → execCb nl sem cb ops env y = execG sem ops env y := by
+  intro y hy
+  rw [cb_override]
+  refine frame_aux sem (cbSem nl sem cb) x ?_ ops [x] (List.mem_singleton.mpr rfl) env env (fun _ _ => rfl) y hy
+  intro op xs hox
+  unfold cbSem
+  split
+  · exact hcb _ _ hox
+  · rfl
 
 /-! ## every well-ordered program
 
 `WOJ J ops`: no row rewrites the (non-scratch) output of an earlier row or writes an operand of an earlier row, no row
-reads the scratch slot or its own output (`Proofs/Solve.lean`). Proved for the program of every netlist below. -/
+reads the scratch slot or its own output (`Proofs/Solve.lean`). Proved for the program of every netlist below.
+`hJ`: no line is the scratch slot. -/
 
-/-- call log and meaning of a callback: (a) one invocation per row, in program order, with the identity of the row's output
-    signal; (b) no signal is passed twice (only the scratch slot can repeat); (c) the value passed for a row is the row's
+/-- call log and meaning of a callback: (a) one invocation per LINE row, in program order, with the identity of the row's output
+    line; (b) no line is passed twice; (c) the value passed for a row is the row's
     function applied to the FINAL values of its operands — overrides made upstream are seen, nothing downstream has
-    happened yet; (d) the result of the run is THE solution of the equation system in which every equation is followed by the
-    callback: it solves it and every solution equals it on every signal except the scratch slot. -/
-theorem callback_wellordered {α} (J : Nat → Bool) (ops : List Op) (hw : WOJ J ops)
+    happened yet; (d) the result of the run is THE solution of the equation system in which every line's equation is followed by
+    the callback: it solves it and every solution equals it on every signal except the scratch slot. -/
+theorem callback_wellordered {α} (J : Nat → Bool) (nl : Nat) (hJ : ∀ x, x < nl → J x = false) (ops : List Op) (hw : WOJ J ops)
     (sem : Op → List α → α) (cb : Nat → α → α) (env : Nat → α) :
-    (cbLog sem cb ops env).map (·.1) = ops.map (·.out) ∧
-    (((cbLog sem cb ops env).map (·.1)).filter (fun x => !J x)).Nodup ∧
-    (∀ (k : Nat) (o : Op), ops[k]? = some o →
-      (cbLog sem cb ops env)[k]? = some (o.out, sem o (o.ins.map (execCb sem cb ops env)))) ∧
-    SolvesJ J (fun op xs => cb op.out (sem op xs)) ops env (execCb sem cb ops env) ∧
-    ∀ val, SolvesJ J (fun op xs => cb op.out (sem op xs)) ops env val →
-      ∀ x, J x = false → val x = execCb sem cb ops env x := by
-  refine ⟨cb_once_in_order sem cb ops env, ?_, ?_, execG_solution J _ ops hw env,
+    (cbLog nl sem cb ops env).map (·.1) = (ops.map (·.out)).filter (· < nl) ∧
+    ((cbLog nl sem cb ops env).map (·.1)).Nodup ∧
+    (∀ (pre post : List Op) (o : Op), ops = pre ++ o :: post → o.out < nl →
+      (cbLog nl sem cb ops env)[(pre.filter (·.out < nl)).length]? =
+        some (o.out, sem o (o.ins.map (execCb nl sem cb ops env)))) ∧
+    SolvesJ J (cbSem nl sem cb) ops env (execCb nl sem cb ops env) ∧
+    ∀ val, SolvesJ J (cbSem nl sem cb) ops env val →
+      ∀ x, J x = false → val x = execCb nl sem cb ops env x := by
+  refine ⟨cb_once_in_order nl sem cb ops env, ?_, ?_, execG_solution J _ ops hw env,
     fun val hs => solution_uniqueJ J _ ops hw env val hs⟩
-  · rw [cb_once_in_order]; exact woj_outs_nodup hw
-  · intro k o hk
-    obtain ⟨hsplit, hlen⟩ := getElem?_split hk
-    have he := cb_log_entry sem cb ops env _ o _ hsplit
-    rw [hlen] at he
-    rw [he]
-    have hw' : WOJ J (ops.take k ++ o :: ops.drop (k + 1)) := hsplit ▸ hw
-    have hfin := operands_final J (fun op xs => cb op.out (sem op xs)) (ops.take k) (ops.drop (k + 1)) o env hw'
+  · rw [cb_once_in_order]
+    have hnd := woj_outs_nodup hw
+    have hsub : (ops.map (·.out)).filter (· < nl) = ((ops.map (·.out)).filter (fun x => !J x)).filter (· < nl) := by
+      rw [List.filter_filter]
+      apply List.filter_congr
+      intro x _
+      by_cases hx : x < nl <;> simp [hx, hJ]
+    rw [hsub]
+    exact hnd.filter _
+  · intro pre post o hsplit hl
+    rw [cb_log_entry nl sem cb ops env pre o post hsplit hl]
+    have hw' : WOJ J (pre ++ o :: post) := hsplit ▸ hw
+    have hfin := operands_final J (cbSem nl sem cb) pre post o env hw'
     rw [← hsplit] at hfin
-    show some (o.out, sem o (o.ins.map (execG (fun op xs => cb op.out (sem op xs)) (ops.take k) env))) = _
+    show some (o.out, sem o (o.ins.map (execG (cbSem nl sem cb) pre env))) = _
     rw [hfin]
     rfl
 
-/-- override = source replacement: forcing signal `x` to `c` yields THE solution of the system in which the equation of `x` is
+/-- override = source replacement: forcing line `x` to `c` yields THE solution of the system in which the equation of `x` is
     replaced by the constant `c` (all other equations unchanged) -/
-theorem callback_force_wellordered {α} (J : Nat → Bool) (ops : List Op) (hw : WOJ J ops)
-    (sem : Op → List α → α) (x : Nat) (c : α) (env : Nat → α) :
+theorem callback_force_wellordered {α} (J : Nat → Bool) (nl : Nat) (ops : List Op) (hw : WOJ J ops)
+    (sem : Op → List α → α) (x : Nat) (hx : x < nl) (c : α) (env : Nat → α) :
     SolvesJ J (fun op xs => if op.out = x then c else sem op xs) ops env
-      (execCb sem (fun s v => if s = x then c else v) ops env) ∧
+      (execCb nl sem (fun s v => if s = x then c else v) ops env) ∧
     ∀ val, SolvesJ J (fun op xs => if op.out = x then c else sem op xs) ops env val →
-      ∀ y, J y = false → val y = execCb sem (fun s v => if s = x then c else v) ops env y := by
-  rw [cb_force_is_source]
+      ∀ y, J y = false → val y = execCb nl sem (fun s v => if s = x then c else v) ops env y := by
+  rw [cb_force_is_source nl sem x hx]
   exact ⟨execG_solution J _ ops hw env, fun val hs => solution_uniqueJ J _ ops hw env val hs⟩
 
 /-- the same against the SPECIFIED gate functions, for a dispatch that agrees with the specification on the (known) op
     codes of the program -/
-theorem callback_force_spec_wellordered {α} (J : Nat → Bool) (ops : List Op) (hw : WOJ J ops) (hk : KnownProg ops)
+theorem callback_force_spec_wellordered {α} (J : Nat → Bool) (nl : Nat) (ops : List Op) (hw : WOJ J ops) (hk : KnownProg ops)
     (sem spec : Nat → List α → α) (heq : ∀ code, KnownCode code → ∀ xs, sem code xs = spec code xs)
-    (x : Nat) (c : α) (env : Nat → α) :
+    (x : Nat) (hx : x < nl) (c : α) (env : Nat → α) :
     SolvesJ J (fun op xs => if op.out = x then c else spec op.code xs) ops env
-      (execCb (fun op => sem op.code) (fun s v => if s = x then c else v) ops env) ∧
+      (execCb nl (fun op => sem op.code) (fun s v => if s = x then c else v) ops env) ∧
     ∀ val, SolvesJ J (fun op xs => if op.out = x then c else spec op.code xs) ops env val →
-      ∀ y, J y = false → val y = execCb (fun op => sem op.code) (fun s v => if s = x then c else v) ops env y := by
-  rw [cb_force_is_source]
+      ∀ y, J y = false → val y = execCb nl (fun op => sem op.code) (fun s v => if s = x then c else v) ops env y := by
+  rw [cb_force_is_source nl _ x hx]
   exact sim_is_spec_solution J _ _ ops hw
     (fun op hop xs => by
       show (if op.out = x then c else sem op.code xs) = (if op.out = x then c else spec op.code xs)
       rw [heq op.code (hk op hop) xs]) env
 
-/-- upstream frame: a callback that rewrites only signal `x` (to any function `f` of the computed value) (a) leaves every
+/-- upstream frame: a callback that rewrites only line `x` (to any function `f` of the computed value) (a) leaves every
     signal whose row stands before the row of `x` — and every signal no row writes — exactly as in the run without callback;
     (b) is handed, at `x`, the value the plain simulation computes for `x`; (c) `x` ends up carrying `f` of that value.
     `pre`/`post` = the rows before / after the row `o` that writes `x`. -/
-theorem callback_upstream_wellordered {α} (J : Nat → Bool) (ops : List Op) (hw : WOJ J ops)
-    (sem : Op → List α → α) (x : Nat) (hx : J x = false) (f : α → α) (env : Nat → α) (pre post : List Op) (o : Op)
+theorem callback_upstream_wellordered {α} (J : Nat → Bool) (nl : Nat) (ops : List Op) (hw : WOJ J ops)
+    (sem : Op → List α → α) (x : Nat) (hx : J x = false) (hxl : x < nl) (f : α → α) (env : Nat → α) (pre post : List Op) (o : Op)
     (hsplit : ops = pre ++ o :: post) (hox : o.out = x) :
     (∀ y, (∀ p ∈ o :: post, p.out ≠ y) →
-      execCb sem (fun s v => if s = x then f v else v) ops env y = execG sem ops env y) ∧
-    (cbLog sem (fun s v => if s = x then f v else v) ops env)[pre.length]? = some (x, execG sem ops env x) ∧
-    execCb sem (fun s v => if s = x then f v else v) ops env x = f (execG sem ops env x) := by
+      execCb nl sem (fun s v => if s = x then f v else v) ops env y = execG sem ops env y) ∧
+    (cbLog nl sem (fun s v => if s = x then f v else v) ops env)[(pre.filter (·.out < nl)).length]? =
+      some (x, execG sem ops env x) ∧
+    execCb nl sem (fun s v => if s = x then f v else v) ops env x = f (execG sem ops env x) := by
   have hw' : WOJ J (pre ++ o :: post) := hsplit ▸ hw
   have hjo : J o.out = false := hox ▸ hx
+  have hol : o.out < nl := hox ▸ hxl
   obtain ⟨hpost, hpre⟩ := (woj_at_row hw').2 hjo
   have hprex : ∀ p ∈ pre, p.out ≠ x := hox ▸ hpre
-  have hup := cb_upstream_unaffected sem x f pre post env hprex
+  have hup := cb_upstream_unaffected nl sem x f pre env hprex
   have hplain : execG sem ops env x = sem o (o.ins.map (execG sem pre env)) := by
     have hmem : o ∈ ops := by rw [hsplit]; exact List.mem_append_right _ List.mem_cons_self
     have h1 := execG_solvesJ J sem ops hw env o hmem hjo
@@ -213,24 +290,29 @@ theorem callback_upstream_wellordered {α} (J : Nat → Bool) (ops : List Op) (h
     rw [h1, operands_final J sem pre post o env hw', ← hsplit]
   refine ⟨?_, ?_, ?_⟩
   · intro y hy
-    show execG (fun op xs => (fun s v => if s = x then f v else v) op.out (sem op xs)) ops env y = execG sem ops env y
-    rw [hsplit, execG_before _ pre (o :: post) env y hy, execG_before sem pre (o :: post) env y hy]
+    rw [cb_override, hsplit, execG_before _ pre (o :: post) env y hy, execG_before sem pre (o :: post) env y hy]
     exact congrFun hup y
-  · have he := cb_log_entry sem (fun s v => if s = x then f v else v) ops env pre o post hsplit
+  · have he := cb_log_entry nl sem (fun s v => if s = x then f v else v) ops env pre o post hsplit hol
     rw [he, hup, hox, hplain]
   · subst hox
-    have hs := cb_value_sticks sem (fun s v => if s = o.out then f v else v) pre post o env hpost
+    have hs := cb_value_sticks nl sem (fun s v => if s = o.out then f v else v) pre post o env hpost
     rw [hplain, hsplit, hs, hup]
-    show (if o.out = o.out then f _ else _) = _
-    rw [if_pos rfl]
+    simp [cbSem, hol]
 
 /-! ## ALL circuits
 
 The statements start from a NETLIST: every well-formed `net` (`Net.wfB`), every topological `order` (`orderOKB`), the op
-program `genOps tbl net order false` of the `SimOps` model (equal to the real `ops` by exact correspondence, C01); any value
-domain `α` and op semantics `sem` (all three logics: `callback_force_three_logics`), any callback. With `strip_forks`
-(`…_stripped`; domain hypotheses `forksOKB`, `readsDrivenB` as in C06/C08): the schedule without the fork rows, operands
-resolved through the stems whose memory the branches share — the stripped branches are not evaluated, hence not reported. -/
+program `genOps tbl net order false` of the `SimOps` model (equal to the real `ops` by exact correspondence, C01), `nl` = the
+number of lines of the netlist; any value domain `α` and op semantics `sem` (all three logics: `callback_force_three_logics`),
+any callback. With `strip_forks` (`…_stripped`; domain hypotheses `forksOKB`, `readsDrivenB` as in C06/C08): the schedule without
+the fork rows, operands resolved through the stems whose memory the branches share — the stripped branches are not evaluated,
+hence not reported. -/
+
+/-- a line is never the scratch slot -/
+theorem line_not_scratch (net : Net) : ∀ x, x < net.lines.size → Jt net x = false := by
+  intro x hx
+  simp only [Jt, Net.idx, beq_eq_false_iff_ne, ne_eq]
+  omega
 
 /-- **call log and meaning of a callback, every netlist** (clauses (a)–(d) of `callback_wellordered`): one invocation per
     scheduled line, in schedule order; no line twice; the value handed over is the gate function of the FINAL operand values;
@@ -238,135 +320,168 @@ resolved through the stems whose memory the branches share — the stripped bran
 theorem callback_all_circuits {α} (tbl : List PrefixRow) (net : Net) (order : List Nat) (hwf : net.wfB = true)
     (ho : orderOKB net order = true) (sem : Op → List α → α) (cb : Nat → α → α) (env : Nat → α) :
     let ops := (genOps tbl net order false).map OpRow.toOp
-    (cbLog sem cb ops env).map (·.1) = ops.map (·.out) ∧
-    (((cbLog sem cb ops env).map (·.1)).filter (fun x => !Jt net x)).Nodup ∧
-    (∀ (k : Nat) (o : Op), ops[k]? = some o →
-      (cbLog sem cb ops env)[k]? = some (o.out, sem o (o.ins.map (execCb sem cb ops env)))) ∧
-    SolvesJ (Jt net) (fun op xs => cb op.out (sem op xs)) ops env (execCb sem cb ops env) ∧
-    ∀ val, SolvesJ (Jt net) (fun op xs => cb op.out (sem op xs)) ops env val →
-      ∀ x, Jt net x = false → val x = execCb sem cb ops env x :=
-  callback_wellordered (Jt net) _ (genOps_WOJ tbl net order false hwf ho) sem cb env
+    let nl := net.lines.size
+    (cbLog nl sem cb ops env).map (·.1) = (ops.map (·.out)).filter (· < nl) ∧
+    ((cbLog nl sem cb ops env).map (·.1)).Nodup ∧
+    (∀ (pre post : List Op) (o : Op), ops = pre ++ o :: post → o.out < nl →
+      (cbLog nl sem cb ops env)[(pre.filter (·.out < nl)).length]? =
+        some (o.out, sem o (o.ins.map (execCb nl sem cb ops env)))) ∧
+    SolvesJ (Jt net) (cbSem nl sem cb) ops env (execCb nl sem cb ops env) ∧
+    ∀ val, SolvesJ (Jt net) (cbSem nl sem cb) ops env val →
+      ∀ x, Jt net x = false → val x = execCb nl sem cb ops env x :=
+  callback_wellordered (Jt net) _ (line_not_scratch net) _ (genOps_WOJ tbl net order false hwf ho) sem cb env
 
 /-- … with `strip_forks` -/
 theorem callback_all_circuits_stripped {α} (tbl : List PrefixRow) (net : Net) (order : List Nat) (hwf : net.wfB = true)
     (ho : orderOKB net order = true) (hf : forksOKB net order = true) (hr : readsDrivenB tbl net order = true)
     (sem : Op → List α → α) (cb : Nat → α → α) (env : Nat → α) :
     let ops := (genOps tbl net order true).map (fun r => (⟨r.lut, r.out, r.ins.map (viaStem (stemsOf net true))⟩ : Op))
-    (cbLog sem cb ops env).map (·.1) = ops.map (·.out) ∧
-    (((cbLog sem cb ops env).map (·.1)).filter (fun x => !Jt net x)).Nodup ∧
-    (∀ (k : Nat) (o : Op), ops[k]? = some o →
-      (cbLog sem cb ops env)[k]? = some (o.out, sem o (o.ins.map (execCb sem cb ops env)))) ∧
-    SolvesJ (Jt net) (fun op xs => cb op.out (sem op xs)) ops env (execCb sem cb ops env) ∧
-    ∀ val, SolvesJ (Jt net) (fun op xs => cb op.out (sem op xs)) ops env val →
-      ∀ x, Jt net x = false → val x = execCb sem cb ops env x :=
-  callback_wellordered (Jt net) _ (simops_sig_WOJ tbl net order true hwf ho (fun _ => hf) hr) sem cb env
+    let nl := net.lines.size
+    (cbLog nl sem cb ops env).map (·.1) = (ops.map (·.out)).filter (· < nl) ∧
+    ((cbLog nl sem cb ops env).map (·.1)).Nodup ∧
+    (∀ (pre post : List Op) (o : Op), ops = pre ++ o :: post → o.out < nl →
+      (cbLog nl sem cb ops env)[(pre.filter (·.out < nl)).length]? =
+        some (o.out, sem o (o.ins.map (execCb nl sem cb ops env)))) ∧
+    SolvesJ (Jt net) (cbSem nl sem cb) ops env (execCb nl sem cb ops env) ∧
+    ∀ val, SolvesJ (Jt net) (cbSem nl sem cb) ops env val →
+      ∀ x, Jt net x = false → val x = execCb nl sem cb ops env x :=
+  callback_wellordered (Jt net) _ (line_not_scratch net) _ (simops_sig_WOJ tbl net order true hwf ho (fun _ => hf) hr) sem cb env
 
 /-- **override = source replacement, on the netlist**: forcing line `x` to `c` makes every line carry its value in THE
     solution of the gate-equation system in which the equation of `x` is replaced by the constant `c` (all other equations
     unchanged) — every netlist, every order, any value domain. -/
 theorem callback_force_all_circuits {α} (tbl : List PrefixRow) (net : Net) (order : List Nat) (hwf : net.wfB = true)
-    (ho : orderOKB net order = true) (sem : Op → List α → α) (x : Nat) (c : α) (env : Nat → α) :
+    (ho : orderOKB net order = true) (sem : Op → List α → α) (x : Nat) (hx : x < net.lines.size) (c : α) (env : Nat → α) :
     let ops := (genOps tbl net order false).map OpRow.toOp
+    let nl := net.lines.size
     SolvesJ (Jt net) (fun op xs => if op.out = x then c else sem op xs) ops env
-      (execCb sem (fun s v => if s = x then c else v) ops env) ∧
+      (execCb nl sem (fun s v => if s = x then c else v) ops env) ∧
     ∀ val, SolvesJ (Jt net) (fun op xs => if op.out = x then c else sem op xs) ops env val →
-      ∀ y, Jt net y = false → val y = execCb sem (fun s v => if s = x then c else v) ops env y :=
-  callback_force_wellordered (Jt net) _ (genOps_WOJ tbl net order false hwf ho) sem x c env
+      ∀ y, Jt net y = false → val y = execCb nl sem (fun s v => if s = x then c else v) ops env y :=
+  callback_force_wellordered (Jt net) _ _ (genOps_WOJ tbl net order false hwf ho) sem x hx c env
 
 /-- the same against the SPECIFIED gate functions, for a dispatch that agrees with the specification on known op codes -/
 theorem callback_force_spec_all_circuits {α} (sem spec : Nat → List α → α)
     (heq : ∀ code, KnownCode code → ∀ xs, sem code xs = spec code xs)
-    (net : Net) (order : List Nat) (hwf : net.wfB = true) (ho : orderOKB net order = true) (x : Nat) (c : α)
-    (env : Nat → α) :
+    (net : Net) (order : List Nat) (hwf : net.wfB = true) (ho : orderOKB net order = true) (x : Nat)
+    (hx : x < net.lines.size) (c : α) (env : Nat → α) :
     let ops := (genOps Gen.kindPrefixes net order false).map OpRow.toOp
+    let nl := net.lines.size
     SolvesJ (Jt net) (fun op xs => if op.out = x then c else spec op.code xs) ops env
-      (execCb (fun op => sem op.code) (fun s v => if s = x then c else v) ops env) ∧
+      (execCb nl (fun op => sem op.code) (fun s v => if s = x then c else v) ops env) ∧
     ∀ val, SolvesJ (Jt net) (fun op xs => if op.out = x then c else spec op.code xs) ops env val →
-      ∀ y, Jt net y = false → val y = execCb (fun op => sem op.code) (fun s v => if s = x then c else v) ops env y :=
-  callback_force_spec_wellordered (Jt net) _ (genOps_WOJ Gen.kindPrefixes net order false hwf ho)
-    (genOps_known net order false) sem spec heq x c env
+      ∀ y, Jt net y = false → val y = execCb nl (fun op => sem op.code) (fun s v => if s = x then c else v) ops env y :=
+  callback_force_spec_wellordered (Jt net) _ _ (genOps_WOJ Gen.kindPrefixes net order false hwf ho)
+    (genOps_known net order false) sem spec heq x hx c env
 
 /-- … with `strip_forks` -/
 theorem callback_force_spec_all_circuits_stripped {α} (sem spec : Nat → List α → α)
     (heq : ∀ code, KnownCode code → ∀ xs, sem code xs = spec code xs)
     (net : Net) (order : List Nat) (hwf : net.wfB = true) (ho : orderOKB net order = true)
-    (hf : forksOKB net order = true) (hr : readsDrivenB Gen.kindPrefixes net order = true) (x : Nat) (c : α)
-    (env : Nat → α) :
+    (hf : forksOKB net order = true) (hr : readsDrivenB Gen.kindPrefixes net order = true) (x : Nat)
+    (hx : x < net.lines.size) (c : α) (env : Nat → α) :
     let ops := (genOps Gen.kindPrefixes net order true).map
       (fun r => (⟨r.lut, r.out, r.ins.map (viaStem (stemsOf net true))⟩ : Op))
+    let nl := net.lines.size
     SolvesJ (Jt net) (fun op xs => if op.out = x then c else spec op.code xs) ops env
-      (execCb (fun op => sem op.code) (fun s v => if s = x then c else v) ops env) ∧
+      (execCb nl (fun op => sem op.code) (fun s v => if s = x then c else v) ops env) ∧
     ∀ val, SolvesJ (Jt net) (fun op xs => if op.out = x then c else spec op.code xs) ops env val →
-      ∀ y, Jt net y = false → val y = execCb (fun op => sem op.code) (fun s v => if s = x then c else v) ops env y :=
-  callback_force_spec_wellordered (Jt net) _ (simops_sig_WOJ Gen.kindPrefixes net order true hwf ho (fun _ => hf) hr)
-    (genOps_known_map net order true _ (fun _ => rfl)) sem spec heq x c env
+      ∀ y, Jt net y = false → val y = execCb nl (fun op => sem op.code) (fun s v => if s = x then c else v) ops env y :=
+  callback_force_spec_wellordered (Jt net) _ _ (simops_sig_WOJ Gen.kindPrefixes net order true hwf ho (fun _ => hf) hr)
+    (genOps_known_map net order true _ (fun _ => rfl)) sem spec heq x hx c env
 
 /-- **in all three logics** (real dispatch chains: 2-valued callback path `sem2c`, 4-valued, 8-valued): forcing a line makes
     the run compute the solution of the documented gate equations with the equation of that line replaced by the constant -/
 theorem callback_force_three_logics (net : Net) (order : List Nat) (hwf : net.wfB = true)
-    (ho : orderOKB net order = true) (x : Nat) :
+    (ho : orderOKB net order = true) (x : Nat) (hx : x < net.lines.size) :
     let ops := (genOps Gen.kindPrefixes net order false).map OpRow.toOp
+    let nl := net.lines.size
     (∀ (c : Bool) (env val : Nat → Bool),
       SolvesJ (Jt net) (fun op xs => if op.out = x then c else specL2 op.code xs) ops env val →
-      ∀ y, Jt net y = false → execCb (fun op => semL2c op.code) (fun s v => if s = x then c else v) ops env y = val y) ∧
+      ∀ y, Jt net y = false → execCb nl (fun op => semL2c op.code) (fun s v => if s = x then c else v) ops env y = val y) ∧
     (∀ (c : V2) (env val : Nat → V2),
       SolvesJ (Jt net) (fun op xs => if op.out = x then c else specL4 op.code xs) ops env val →
-      ∀ y, Jt net y = false → execCb (fun op => semL4 op.code) (fun s v => if s = x then c else v) ops env y = val y) ∧
+      ∀ y, Jt net y = false → execCb nl (fun op => semL4 op.code) (fun s v => if s = x then c else v) ops env y = val y) ∧
     (∀ (c : V3) (env val : Nat → V3),
       SolvesJ (Jt net) (fun op xs => if op.out = x then c else specL8 op.code xs) ops env val →
-      ∀ y, Jt net y = false → execCb (fun op => semL8 op.code) (fun s v => if s = x then c else v) ops env y = val y) :=
+      ∀ y, Jt net y = false → execCb nl (fun op => semL8 op.code) (fun s v => if s = x then c else v) ops env y = val y) :=
   ⟨fun c env val hs y hy => ((callback_force_spec_all_circuits semL2c specL2 (fun _ h xs => semL2c_eq_spec h xs)
-      net order hwf ho x c env).2 val hs y hy).symm,
+      net order hwf ho x hx c env).2 val hs y hy).symm,
    fun c env val hs y hy => ((callback_force_spec_all_circuits semL4 specL4 (fun _ h xs => semL4_eq_spec h xs)
-      net order hwf ho x c env).2 val hs y hy).symm,
+      net order hwf ho x hx c env).2 val hs y hy).symm,
    fun c env val hs y hy => ((callback_force_spec_all_circuits semL8 specL8 (fun _ h xs => semL8_eq_spec h xs)
-      net order hwf ho x c env).2 val hs y hy).symm⟩
+      net order hwf ho x hx c env).2 val hs y hy).symm⟩
 
 /-- **upstream frame, on the netlist** (clauses (a)–(c) of `callback_upstream_wellordered`): everything scheduled before the
     row of the overridden line `x` is as in the run without callback; the callback is handed the plain value at `x`; `x` ends
     up carrying `f` of it -/
 theorem callback_upstream_all_circuits {α} (tbl : List PrefixRow) (net : Net) (order : List Nat) (hwf : net.wfB = true)
-    (ho : orderOKB net order = true) (sem : Op → List α → α) (x : Nat) (hx : Jt net x = false) (f : α → α)
+    (ho : orderOKB net order = true) (sem : Op → List α → α) (x : Nat) (hx : x < net.lines.size) (f : α → α)
     (env : Nat → α) (pre post : List Op) (o : Op)
     (hsplit : (genOps tbl net order false).map OpRow.toOp = pre ++ o :: post) (hox : o.out = x) :
     let ops := (genOps tbl net order false).map OpRow.toOp
+    let nl := net.lines.size
     let cb : Nat → α → α := fun s v => if s = x then f v else v
-    (∀ y, (∀ p ∈ o :: post, p.out ≠ y) → execCb sem cb ops env y = execG sem ops env y) ∧
-    (cbLog sem cb ops env)[pre.length]? = some (x, execG sem ops env x) ∧
-    execCb sem cb ops env x = f (execG sem ops env x) :=
-  callback_upstream_wellordered (Jt net) _ (genOps_WOJ tbl net order false hwf ho) sem x hx f env pre post o hsplit hox
+    (∀ y, (∀ p ∈ o :: post, p.out ≠ y) → execCb nl sem cb ops env y = execG sem ops env y) ∧
+    (cbLog nl sem cb ops env)[(pre.filter (·.out < nl)).length]? = some (x, execG sem ops env x) ∧
+    execCb nl sem cb ops env x = f (execG sem ops env x) :=
+  callback_upstream_wellordered (Jt net) _ _ (genOps_WOJ tbl net order false hwf ho) sem x (line_not_scratch net x hx) hx f env
+    pre post o hsplit hox
 
 /-- … with `strip_forks` -/
 theorem callback_upstream_all_circuits_stripped {α} (tbl : List PrefixRow) (net : Net) (order : List Nat)
     (hwf : net.wfB = true) (ho : orderOKB net order = true) (hf : forksOKB net order = true)
-    (hr : readsDrivenB tbl net order = true) (sem : Op → List α → α) (x : Nat) (hx : Jt net x = false) (f : α → α)
+    (hr : readsDrivenB tbl net order = true) (sem : Op → List α → α) (x : Nat) (hx : x < net.lines.size) (f : α → α)
     (env : Nat → α) (pre post : List Op) (o : Op)
     (hsplit : (genOps tbl net order true).map (fun r => (⟨r.lut, r.out, r.ins.map (viaStem (stemsOf net true))⟩ : Op))
       = pre ++ o :: post) (hox : o.out = x) :
     let ops := (genOps tbl net order true).map (fun r => (⟨r.lut, r.out, r.ins.map (viaStem (stemsOf net true))⟩ : Op))
+    let nl := net.lines.size
     let cb : Nat → α → α := fun s v => if s = x then f v else v
-    (∀ y, (∀ p ∈ o :: post, p.out ≠ y) → execCb sem cb ops env y = execG sem ops env y) ∧
-    (cbLog sem cb ops env)[pre.length]? = some (x, execG sem ops env x) ∧
-    execCb sem cb ops env x = f (execG sem ops env x) :=
-  callback_upstream_wellordered (Jt net) _ (simops_sig_WOJ tbl net order true hwf ho (fun _ => hf) hr) sem x hx f env
-    pre post o hsplit hox
+    (∀ y, (∀ p ∈ o :: post, p.out ≠ y) → execCb nl sem cb ops env y = execG sem ops env y) ∧
+    (cbLog nl sem cb ops env)[(pre.filter (·.out < nl)).length]? = some (x, execG sem ops env x) ∧
+    execCb nl sem cb ops env x = f (execG sem ops env x) :=
+  callback_upstream_wellordered (Jt net) _ _ (simops_sig_WOJ tbl net order true hwf ho (fun _ => hf) hr) sem x
+    (line_not_scratch net x hx) hx f env pre post o hsplit hox
+
+/-- **frame outside the fan-out, on the netlist** (`cb_frame`; no hypothesis on net or order needed): a callback that rewrites
+    only line `x` leaves every signal that is not in the fan-out of `x` over the scheduled rows — scheduled before OR AFTER the
+    row of `x` — exactly as in the run without callback; both schedules (`strip_forks` off: rows as emitted; on: operands
+    through the stems). -/
+theorem callback_force_frame {α} (tbl : List PrefixRow) (net : Net) (order : List Nat)
+    (sem : Op → List α → α) (x : Nat) (f : α → α) (env : Nat → α) :
+    let nl := net.lines.size
+    let cb : Nat → α → α := fun s v => if s = x then f v else v
+    (let ops := (genOps tbl net order false).map OpRow.toOp
+     ∀ y, y ∉ fanout x ops → execCb nl sem cb ops env y = execG sem ops env y) ∧
+    (let ops := (genOps tbl net order true).map (fun r => (⟨r.lut, r.out, r.ins.map (viaStem (stemsOf net true))⟩ : Op))
+     ∀ y, y ∉ fanout x ops → execCb nl sem cb ops env y = execG sem ops env y) :=
+  ⟨cb_frame _ sem x _ (fun s v hs => by simp [hs]) _ env, cb_frame _ sem x _ (fun s v hs => by simp [hs]) _ env⟩
 
 /-! ### non-vacuity of the all-circuits statements: `demoNet` (AND2 of lines 2, 3 on line 4, INV1 on line 5; `C01.demoNet`),
 2-valued callback path, `a` = 1 (slot 9), `b` = 0 (slot 10), callback forcing the AND output (line 4) to 1 -/
 def demoEnv : Nat → Bool := fun l => l == 9
 def demoCb : Nat → Bool → Bool := fun s v => if s = 4 then true else v
+abbrev demoOps : List Op := (genOps Gen.kindPrefixes Demo.demoNet Demo.demoOrder false).map OpRow.toOp
 
 /-- the hypotheses of `callback_all_circuits` hold; its clauses on this instance: the lines in schedule order, each once;
     at line 4 the callback is handed the computed 0, at line 5 the inverter of the FORCED 1 -/
 example := callback_all_circuits Gen.kindPrefixes Demo.demoNet Demo.demoOrder Demo.demo_hyps.1 Demo.demo_hyps.2.1
   (fun op => semL2c op.code) demoCb demoEnv
-example : cbLog (fun op => semL2c op.code) demoCb ((genOps Gen.kindPrefixes Demo.demoNet Demo.demoOrder false).map OpRow.toOp)
+example : cbLog 6 (fun op => semL2c op.code) demoCb demoOps
     demoEnv = [(0, true), (1, false), (2, true), (3, false), (4, false), (5, false)] := by decide +kernel
+example : Demo.demoNet.lines.size = 6 := by decide +kernel
+
+/-- a row writing the scratch slot (index ≥ `nl`) is evaluated but not reported and not passed through the callback -/
+example : cbLog 2 (fun _ xs => !(xs.getD 0 false)) (fun _ _ => true) [⟨0, 0, [5]⟩, ⟨0, 3, [0]⟩, ⟨0, 1, [3]⟩] (fun _ => false) =
+    [(0, true), (1, true)] ∧
+    execCb 2 (fun _ xs => !(xs.getD 0 false)) (fun _ _ => true) [⟨0, 0, [5]⟩, ⟨0, 3, [0]⟩, ⟨0, 1, [3]⟩] (fun _ => false) 3 = false := by
+  decide
 
 /-- `callback_force_three_logics` applies; forcing flips the inverter output: 1 without, 0 with the callback -/
-example := callback_force_three_logics Demo.demoNet Demo.demoOrder Demo.demo_hyps.1 Demo.demo_hyps.2.1 4
-example : execG (fun op => semL2c op.code) ((genOps Gen.kindPrefixes Demo.demoNet Demo.demoOrder false).map OpRow.toOp) demoEnv 5 = true ∧
-    execCb (fun op => semL2c op.code) demoCb ((genOps Gen.kindPrefixes Demo.demoNet Demo.demoOrder false).map OpRow.toOp) demoEnv 5 = false := by
+example := callback_force_three_logics Demo.demoNet Demo.demoOrder Demo.demo_hyps.1 Demo.demo_hyps.2.1 4 (by decide +kernel)
+example : execG (fun op => semL2c op.code) demoOps demoEnv 5 = true ∧
+    execCb 6 (fun op => semL2c op.code) demoCb demoOps demoEnv 5 = false := by
   decide +kernel
 
 /-- `callback_upstream_all_circuits` applies to the row of line 4 (four rows before it, one after it) -/
@@ -374,6 +489,12 @@ example := callback_upstream_all_circuits Gen.kindPrefixes Demo.demoNet Demo.dem
   (fun op => semL2c op.code) 4 (by decide +kernel) (fun _ => true) demoEnv
   [⟨43690, 0, [9, 6, 6, 6]⟩, ⟨43690, 1, [10, 6, 6, 6]⟩, ⟨43690, 2, [0, 6, 6, 6]⟩, ⟨43690, 3, [1, 6, 6, 6]⟩]
   [⟨21845, 5, [4, 6, 6, 6]⟩] ⟨34952, 4, [2, 3, 6, 6]⟩ (by rw [Demo.demo_ops.1]; rfl) rfl
+
+/-- `callback_force_frame` on this instance: the fan-out of line 2 is {2, 4, 5}; line 3 is scheduled AFTER line 2 and outside
+    it, so it keeps its plain value whatever the callback does to line 2 -/
+example := (callback_force_frame Gen.kindPrefixes Demo.demoNet Demo.demoOrder (fun op => semL2c op.code) 2 (fun v => !v) demoEnv).1
+example : fanout 2 demoOps = [5, 4, 2] ∧ 3 ∉ fanout 2 demoOps ∧
+    (demoOps.map (·.out)).idxOf 2 < (demoOps.map (·.out)).idxOf 3 := by decide +kernel
 
 /-! … and with `strip_forks`: `forkNet` (`C06.forkNet`; two-branch fork, chained fork), `a` = 1 (slot 12), `b` = 1 (slot 13), the AND
 output (line 6) forced to 0. The stripped schedule has four rows; the branches 1, 3, 5 are read through their stems 0, 0, 4. -/
@@ -383,11 +504,11 @@ def forkCb : Nat → Bool → Bool := fun s v => if s = 6 then false else v
 example := callback_all_circuits_stripped Gen.kindPrefixes Demo.forkNet Demo.forkOrder Demo.fork_hyps.1 Demo.fork_hyps.2.1
   Demo.fork_hyps.2.2.1 Demo.fork_hyps.2.2.2 (fun op => semL2c op.code) forkCb forkEnv
 /-- four calls (lines 0, 4, 6, 7 — no branch is reported); the OR (line 7) still computes 1 from the stem of branch 3 -/
-example : cbLog (fun op => semL2c op.code) forkCb ((genOps Gen.kindPrefixes Demo.forkNet Demo.forkOrder true).map
+example : cbLog Demo.forkNet.lines.size (fun op => semL2c op.code) forkCb ((genOps Gen.kindPrefixes Demo.forkNet Demo.forkOrder true).map
       (fun r => (⟨r.lut, r.out, r.ins.map (viaStem (stemsOf Demo.forkNet true))⟩ : Op))) forkEnv =
     [(0, true), (4, true), (6, true), (7, true)] := by decide +kernel
 example := callback_force_spec_all_circuits_stripped semL8 specL8 (fun _ h xs => semL8_eq_spec h xs) Demo.forkNet Demo.forkOrder
-  Demo.fork_hyps.1 Demo.fork_hyps.2.1 Demo.fork_hyps.2.2.1 Demo.fork_hyps.2.2.2 6 V3.zero
+  Demo.fork_hyps.1 Demo.fork_hyps.2.1 Demo.fork_hyps.2.2.1 Demo.fork_hyps.2.2.2 6 (by decide +kernel) V3.zero
 theorem fork_stripped_rows : (genOps Gen.kindPrefixes Demo.forkNet Demo.forkOrder true).map
       (fun r => (⟨r.lut, r.out, r.ins.map (viaStem (stemsOf Demo.forkNet true))⟩ : Op)) =
     [⟨0xAAAA, 0, [12, 9, 9, 9]⟩, ⟨0xAAAA, 4, [13, 9, 9, 9]⟩] ++ ⟨0x8888, 6, [0, 4, 9, 9]⟩ :: [⟨0xEEEE, 7, [0, 6, 9, 9]⟩] := by
@@ -400,7 +521,7 @@ example := callback_upstream_all_circuits_stripped Gen.kindPrefixes Demo.forkNet
   forkEnv _ _ _ fork_stripped_rows rfl
 
 /-- non-vacuity: forcing the AND output (signal 10) to true flips the downstream inverter -/
-example : execCb (fun op xs => if op.code = 0 then (xs.getD 0 false && xs.getD 1 false) else !(xs.getD 0 false))
+example : execCb 12 (fun op xs => if op.code = 0 then (xs.getD 0 false && xs.getD 1 false) else !(xs.getD 0 false))
     (fun s v => if s = 10 then true else v) [⟨0, 10, [0, 1]⟩, ⟨1, 11, [10]⟩] (fun _ => false) 11 = false := by decide
 
 end KV.C16
